@@ -56,7 +56,9 @@ HTML_DOCS = {
            '<p id="j" dir="bogus"><i id="k"></i></p><iframe id="fr"><html><body><p id="m"></p></body></html></iframe><svg><circle id="n"/></svg></body></html>',
     'iframe': '<html><body><div id="o"><p id="p1">Testing text</p><iframe id="fr"><html><body><span id="in1">hidden <b id="in2">words</b></span>'
               '<form id="ff"><input id="r1" type="radio" name="n"><input id="r2" type="radio" name="n" checked></form></body></html></iframe></div>'
-              '<div id="q"><iframe id="fr2"><html><body><p id="in3">x</p></body></html></iframe>tail</div></body></html>',
+              '<div id="q"><iframe id="fr2"><html><body><p id="in3">x</p></body></html></iframe>tail</div>'
+              '<iframe id="fr3"><html><body><div><p><input id="r3" type="radio" name="k"><input id="r4" type="radio" name="k" checked></p></div>'
+              '<input id="r6" type="radio" name="n"></body></html></iframe><iframe id="fr4"><input id="r5" type="radio" name="z"></iframe></body></html>',
     'text': '<div id="a">aaa<p id="b">bbb<!--ccc--></p><![CDATA[ddd]]><?pi eee?>fff<span id="c"> \n\t</span><span id="d"><!-- x --></span><span id="e">a<b id="f"></b>b</span></div>',
     'attrs': '<div id="a" title="x&#10;" data-k="v w  z" CLASS="Up low" rel="a b"><p id="b" title="" type="Submit" lang="EN-us"></p>'
              '<p id="c" title="x-y" data-k="-"></p><p id="d" title="X" class=" s  t "></p><p id="e" title="ax(" class="q"></p></div>',
@@ -105,6 +107,9 @@ def make_docs(tier='quick', seed=0, want=None):
         s = BeautifulSoup('<div id="a"><p id="b" class="x y">t</p><p id="c">u</p></div>', 'html.parser')
         el = s.find(id='b').extract()
         yield 'api/detached', el, 'html'
+        s3 = BeautifulSoup('<form><input id="dr" type="radio" name="x"><input type="radio" name="x" checked></form>', 'html.parser')
+        yield 'api/detached-radio', s3.find(id='dr').extract(), 'html'
+        yield 'api/new-tag', BeautifulSoup('', 'html.parser').new_tag('input', attrs={'type': 'radio', 'name': 'q', 'id': 'nt'}), 'html'
         s2 = BeautifulSoup('<div id="a"><p id="b">t</p><p id="c">u</p></div>', 'html.parser')
         s2.find(id='b')['title'] = None
         s2.find(id='b')['data-n'] = 5
